@@ -31,7 +31,7 @@ import os
 import re
 import signal
 import sys
-from typing import Dict, List, Optional
+from typing import Callable, Dict, List, Optional
 
 from ..lib import common, tlc
 from ..lib.evidence import Report, machinery_failure
@@ -65,6 +65,36 @@ class Sub2(Base):
     def __init__(self, n: int = 3, k: float = 0.5):
         super().__init__(n)
         self.k = k
+
+
+class Sub3(Base):
+    def __init__(self, n: int = 4, k: float = 0.25, t: str = "t"):
+        super().__init__(n)
+        self.k, self.t = k, t
+
+
+def make_base(n: int) -> Base:
+    return Base(n)
+
+
+class Maker:
+    """a class whose INSTANCES are callable: as a value of a callable type none of its __init__ parameters is supplied by the caller,
+    so every one of them must be accepted and keep its default (nothing is skipped)."""
+
+    def __init__(self, a: int = 1, b: int = 2):
+        self.a, self.b = a, b
+
+    def __call__(self, n: int, k: float = 0.5) -> Base:
+        return Sub2(n + self.a, k)
+
+
+class Holder:
+    """a class whose parameters are callables that RETURN class instances: given as class_path / init_args, the first one / two
+    __init__ parameters of the class are supplied by the caller and skipped by the parser (--hold.mk.help has a dict of its own)."""
+
+    def __init__(self, mk: Callable[[int], Base] = make_base, opt: Optional[Callable[[int, float], Base]] = None, size: int = 3,
+                 d: Optional["Data"] = None):  # ... and an Optional[<dataclass>] parameter of a CLASS signature (--hold.d.a, --hold.d.b)
+        self.mk, self.opt, self.size, self.d = mk, opt, size, d
 
 
 @dataclasses.dataclass
@@ -166,6 +196,11 @@ def build(root: str, d: Optional[str] = None) -> dict:
     p.add_argument("--grid", type=List[List[float]], default=[[5, 6]])
     p.add_function_arguments(make_opt, "opt")  # conditional defaults
     p.add_argument("--d", type=Data, default=Data(a=3))  # a plain dataclass-typed argument
+    # callables that return class instances (round 4): as options of the parser (their help actions use the class-level dict) ...
+    p.add_argument("--cb", type=Callable[[int], Base])
+    p.add_argument("--cbe", type=Callable[..., Base])
+    p.add_argument("--cbo", type=Optional[Callable[[int, float], Base]], default=None)
+    p.add_class_arguments(Holder, "hold")  # ... and as parameters of a class (help actions with a dict of their own)
     return {"B": p}
 
 
@@ -223,6 +258,8 @@ PIECES = {
     "B": {
         "ok": [["--v=2"], ["--v", "3"], ["--u=[a,b]"], ["--u+=c"], ["--grid=[[7, 8]]"], ["--cls=Sub1"], ["--opt.kind=sgd"], ["--opt.lr=0.5"]],
         "shtab": [["--print_shtab=bash"]],
+        "dc1": [["--hold.d.a=6"], ["--hold.d.b=9"], ["--hold.d.a", "8"]],  # Optional[Data] parameter of the class group `hold`
+        "dcn": [["--hold.d.a=5", "--hold.d.b=7"], ["--hold.d.b=4", "--hold.d.a=3"]],
         "dg1": [["--d.a=6"], ["--d.b=9"]],  # add_argument(type=Data) expands into one plain option per field
         "dgn": [["--d.a=5", "--d.b=7"]],
         "dcd": [['--d={"a": 4, "b": 8}']],
@@ -244,6 +281,44 @@ DC = {"dc1": [{"a": 6}, {"b": 9}], "dcn": [{"a": 5, "b": 7}, {"b": 4, "a": 3}]}
 SPEC = {"full": [{"cls": {"class_path": "Sub2"}}, {"cls": {"class_path": MODNAME + ".Sub2", "init_args": {}}}],
         "short": [{"cls": {"init_args": {"k": 3.5}}}]}
 ENVVAR = {"A": "APP_W", "B": "OTH_V"}
+# help requests for typed arguments: key -> (argv pieces, scope of the dict the help action uses, what it writes to "skip")
+HELPS = {"A": {"cls": ([["--cls.help=Sub2"], ["--cls.help", "Sub1"]], "shared", "-")},
+         "B": {"cls": ([["--cls.help=Sub1"], ["--cls.help", "Sub2"]], "shared", "-"),
+               "cb": ([["--cb.help", "Sub1"], ["--cb.help=Sub2"]], "shared", "1"),
+               "cbe": ([["--cbe.help=Sub2"], ["--cbe.help", "Sub3"]], "shared", "1"),
+               "cbo": ([["--cbo.help=Sub3"]], "shared", "2"),
+               "hold.mk": ([["--hold.mk.help", "Sub1"], ["--hold.mk.help=Sub3"]], "own1", "1"),
+               "hold.opt": ([["--hold.opt.help=Sub3"]], "own2", "2")}}
+# values of the callable types: argv pieces and configuration objects per key
+# (a subclass of the return type: the first k parameters are skipped; Maker, a class whose instances are callable: none is; a class change)
+MAKER = MODNAME + ".Maker"
+CBV = {"cb": [["--cb=Sub1"], ["--cb", '{"class_path":"Sub1","init_args":{"m":"z"}}'], ["--cb=Sub1", "--cb.m=z"], ["--cb=Sub2", "--cb.init_args.k=0.75"], ["--cb=Sub3"],
+              ["--cb", MAKER], ["--cb=" + MAKER, "--cb.a=5"], ["--cb=Sub3", "--cb.t=u", "--cb=Sub2"]],
+       "cbe": [["--cbe=Sub1"], ["--cbe=Sub2", "--cbe.k=2.5"], ["--cbe=" + MAKER], ["--cbe", MAKER, "--cbe.init_args.a=7"]],
+       "cbo": [["--cbo=Sub3"], ["--cbo=Sub3", "--cbo.t=u"], ['--cbo={"class_path":"Sub3"}'], ["--cbo=" + MAKER], ["--cbo", MAKER, "--cbo.b=6"]],
+       "hold.mk": [["--hold.mk=Sub1"], ["--hold.mk=Sub1", "--hold.mk.m=w"], ["--hold.mk", '{"class_path":"Sub2","init_args":{"k":1.5}}'],
+                   ["--hold.mk", MAKER], ["--hold.mk=" + MAKER, "--hold.mk.a=5"]],
+       "hold.opt": [["--hold.opt=Sub3", "--hold.opt.init_args.t=v"], ["--hold.opt=Sub3"], ["--hold.opt=" + MAKER], ["--hold.opt", MAKER, "--hold.opt.a=8", "--hold.opt.b=9"]]}
+CBOBJ = {"cb": [{"cb": {"class_path": "Sub1"}}, {"cb": {"class_path": "Sub1", "init_args": {"m": "y"}}}, {"cb": {"class_path": "Sub3"}},
+                {"cb": {"class_path": MAKER}}, {"cb": {"class_path": MAKER, "init_args": {"a": 3}}}],
+         "cbe": [{"cbe": {"class_path": "Sub2"}}, {"cbe": {"class_path": MAKER, "init_args": {"b": 4}}}],
+         "cbo": [{"cbo": {"class_path": "Sub3", "init_args": {"t": "s"}}}, {"cbo": {"class_path": "Sub3"}}, {"cbo": {"class_path": MAKER}}],
+         "hold.mk": [{"hold": {"mk": {"class_path": "Sub2", "init_args": {"k": 1.5}}}}, {"hold": {"mk": {"class_path": "Sub1"}}},
+                     {"hold": {"mk": {"class_path": MAKER, "init_args": {"a": 3}}}}, {"hold": {"mk": {"class_path": MAKER}}}],
+         "hold.opt": [{"hold": {"opt": {"class_path": "Sub3"}}}, {"hold": {"opt": {"class_path": MAKER, "init_args": {"a": 2, "b": 3}}}}]}
+CBENV = {"cb": "OTH_CB", "cbe": "OTH_CBE", "cbo": "OTH_CBO", "hold.mk": "OTH_HOLD__MK", "hold.opt": "OTH_HOLD__OPT"}
+
+
+def _pick_key(ab: dict, table: dict, rnd) -> str:
+    """the hint hkey = "<key>" | "any", optionally followed by ":maker" (the value is a class whose instances are callable)."""
+    k = ab.get("hkey", "any").partition(":")[0]
+    return k if k in table else rnd.choice(sorted(table))
+
+
+def _pick_val(ab: dict, alts: list, rnd):
+    if ab.get("hkey", "any").endswith(":maker"):
+        alts = [a for a in alts if MAKER in json.dumps(a)]
+    return rnd.choice(alts)
 
 
 def concretize(ab: dict, rnd) -> dict:
@@ -269,6 +344,11 @@ def concretize(ab: dict, rnd) -> dict:
                     piece, used_x = [force_x], True
                 else:
                     piece = rnd.choice(PIECES[p]["ok_nox"])
+            elif it == "clshelp":  # the help request for a typed argument: the declared dict scope / written skip decide which ones fit
+                fit = {k: v for k, v in HELPS[p].items() if v[1] == ab.get("hscope", "shared") and v[2] == ab.get("hset", "-")}
+                piece = rnd.choice(fit[_pick_key(ab, fit, rnd)][0])
+            elif it == "cbv":
+                piece = _pick_val(ab, CBV[_pick_key(ab, CBV, rnd)], rnd)
             else:
                 piece = rnd.choice(PIECES[p][it])
             argv += piece
@@ -289,7 +369,10 @@ def concretize(ab: dict, rnd) -> dict:
         elif c["kwargs"]["env"]:
             c["environ"] = rnd.choice([{}, {ENVVAR[p]: "[5]" if p == "A" else "5"}])
     elif m in ("parse_object", "parse_string", "parse_path", "parse_env"):
-        if ab.get("spec", "none") in DC:
+        cbkey = _pick_key(ab, CBOBJ, rnd) if ab.get("spec", "none") == "cb" else None
+        if cbkey:
+            obj = _pick_val(ab, CBOBJ[cbkey], rnd)
+        elif ab.get("spec", "none") in DC:
             fields = rnd.choice(DC[ab["spec"]])
             obj = {"fn": {"d": fields}} if p == "A" else {"d": fields}
         elif ab.get("spec", "none") != "none":
@@ -308,7 +391,12 @@ def concretize(ab: dict, rnd) -> dict:
             obj = rnd.choice([{key1: 3}, {key1: 4}] + ([{"w": [1, 2]}, {"cls": {"class_path": "Sub2", "init_args": {"k": 2.5}}}, {}] if p == "A" else [{"u": ["q"]}]))
         if m == "parse_env":  # only flat, environment-expressible variants
             pre = "APP_" if p == "A" else "OTH_"
-            if ab.get("spec", "none") in DC:
+            if cbkey:
+                inner = obj
+                for part in cbkey.split("."):
+                    inner = inner[part]
+                obj = {CBENV[cbkey]: json.dumps(inner)}
+            elif ab.get("spec", "none") in DC:
                 obj = {("APP_FN__D" if p == "A" else "OTH_D"): json.dumps(rnd.choice(DC[ab["spec"]]))}
             elif ab["pre"] == "fail":
                 obj = {pre + key1.upper(): "bad"}
@@ -331,6 +419,8 @@ def concretize(ab: dict, rnd) -> dict:
         c["file"] = ab["file"]
     else:  # dump / validate / instantiate_classes: the argument is built by hand (never through a parser)
         c["cfg"] = {"bad": ab["pre"] == "fail", "sub": rnd.choice(["none", "a", "b"]) if p == "A" else "none"}
+        if p == "B" and ab.get("spec", "none") == "cb":  # the configuration holds values of the callable types
+            c["cfg"]["cb"] = 3 if ab.get("hkey", "any").endswith(":maker") else rnd.choice([1, 2, 3, 3])
         if m == "dump":
             c["skip_none"] = "skip_none=True" in ab["dkv"]
     return c
@@ -346,13 +436,28 @@ def abstract_record(ab: dict, c: dict, coarse_tag=None) -> dict:
             "tag": tag_of(c["argv"]) if ab["m"] == "parse_args" else "-",
             "stag": tag_of(c["sargv"]) if ab["m"] == "parse_args" and c.get("sargv") is not None else "-", "items": list(ab["items"]), "sub": ab["sub"],
             "sitems": list(ab["sitems"]), "pre": ab["pre"], "sel": ab["sel"], "dumpf": ab["dumpf"], "late": ab["late"],
-            "ser": bool(ab["ser"]), "dkv": ab["dkv"], "spec": ab.get("spec", "none"), "file": ab.get("file", "-")}
+            "ser": bool(ab["ser"]), "dkv": ab["dkv"], "spec": ab.get("spec", "none"), "file": ab.get("file", "-"),
+            "hscope": ab.get("hscope", "shared"), "hset": ab.get("hset", "-"), "hkey": ab.get("hkey", "any")}
 
 
 def hand_cfg(p: str, spec: dict):
     """a configuration object for dump/validate/instantiate_classes built without any parser call."""
     if p == "B":
-        return Namespace(v="bad" if spec["bad"] else 7, u=["a"])
+        cfg = Namespace(v="bad" if spec["bad"] else 7, u=["a"])
+        if spec.get("cb") == 1:
+            cfg["cb"] = Namespace(class_path=MODNAME + ".Sub1", init_args=Namespace(m="h"))
+            cfg["hold"] = Namespace(mk=Namespace(class_path=MODNAME + ".Sub2", init_args=Namespace(k=0.75)), opt=None, size=4)
+        elif spec.get("cb") == 2:
+            cfg["cbe"] = Namespace(class_path=MODNAME + ".Sub2", init_args=Namespace(k=1.25))
+            cfg["cbo"] = Namespace(class_path=MODNAME + ".Sub3", init_args=Namespace(t="g"))
+            cfg["hold"] = Namespace(mk=Namespace(class_path=MODNAME + ".Sub1", init_args=Namespace(m="i")),
+                                    opt=Namespace(class_path=MODNAME + ".Sub3", init_args=Namespace(t="j")), size=5)
+        elif spec.get("cb") == 3:  # classes whose instances are callable: all their init_args are the parser's
+            cfg["cb"] = Namespace(class_path=MAKER, init_args=Namespace(a=3, b=4))
+            cfg["cbo"] = Namespace(class_path=MAKER, init_args=Namespace(a=5, b=6))
+            cfg["hold"] = Namespace(mk=Namespace(class_path=MAKER, init_args=Namespace(a=7, b=8)),
+                                    opt=Namespace(class_path=MAKER, init_args=Namespace(a=9, b=10)), size=6)
+        return cfg
     cfg = Namespace(x="bad" if spec["bad"] else 7, w=[1, 2],
                     cls=Namespace(class_path=MODNAME + ".Sub1", init_args=Namespace(n=113 if spec["bad"] else 7, m="h")))
     if spec["sub"] == "a":
@@ -406,8 +511,14 @@ def norm(x, filedir=""):
         return {str(k): norm(v, filedir) for k, v in x.items()}
     if isinstance(x, (list, tuple)):
         return [norm(v, filedir) for v in x]
-    if isinstance(x, Base):
+    if isinstance(x, (Base, Holder, Maker)):
         return {"__obj__": type(x).__name__, "attrs": {k: norm(v, filedir) for k, v in sorted(vars(x).items())}}
+    if callable(x) and getattr(x, "__name__", "") == "partial_instance":  # an instantiated callable that returns class instances: show what it builds
+        for args in ((5,), (5, 0.5), ()):
+            try:
+                return {"__callable__": len(args), "builds": norm(x(*args), filedir)}
+            except TypeError:
+                continue
     if isinstance(x, (str, int, float, bool, type(None))):
         return x
     return _clean(repr(x), filedir)
@@ -519,6 +630,22 @@ def observe(P: dict, cwd0: str, base: Optional[dict] = None) -> dict:
         bad.append("argparse.Namespace")
     nact = {n: len(q._actions) for n, q in P.items()}
     links = _linked_targets(P)
+    # the "skip" entry of the dicts that help actions of typed arguments use: the class-level one and those of B's class parameters
+    hcls = getattr(__import__("jsonargparse._actions", fromlist=["_ActionHelpClassPath"]), "_ActionHelpClassPath", None)
+
+    def skipcode(d):
+        return "n/a" if not isinstance(d, dict) else ("unset" if "skip" not in d else ",".join(sorted(str(v) for v in d["skip"])))
+
+    def help_dict(dest):
+        act = next((a for a in P["B"]._actions if a.dest == dest), None) if "B" in P else None
+        d = getattr(act, "sub_add_kwargs", None)
+        return None if d is None or d is getattr(hcls, "sub_add_kwargs", None) else d
+
+    hskip = {"shared": skipcode(getattr(hcls, "sub_add_kwargs", None)), "own1": skipcode(help_dict("hold.mk.help")), "own2": skipcode(help_dict("hold.opt.help"))}
+    # the settings of every typed argument's own action (never written after construction, apart from linked_targets)
+    settings = ";".join(f"{n}:{a.dest}:{sorted((k, repr(v)) for k, v in a.sub_add_kwargs.items() if k != 'linked_targets')}"
+                        for n, q in sorted(P.items()) for a in q._actions
+                        if type(a).__name__ == "ActionTypeHint" and isinstance(getattr(a, "sub_add_kwargs", None), dict))
     if base is not None:
         # Alg: the only action ever added after construction is --print_shtab on a root parser; linked_targets of the
         # class-typed actions are written by link_arguments only
@@ -528,7 +655,9 @@ def observe(P: dict, cwd0: str, base: Optional[dict] = None) -> dict:
             bad.append("n_actions")
         if links != base["links"]:
             bad.append("linked_targets")
-    return {"pending": pend, "args": args, "shtab": shtab, "dcf": {n: get_dcf(n, cwd0) for n in P if "." not in n},
+        if settings != base["settings"] and not any(v == "broken" for v in shtab.values()):
+            bad.append("action_settings")
+    return {"hskip": hskip, "settings": settings, "pending": pend, "args": args, "shtab": shtab, "dcf": {n: get_dcf(n, cwd0) for n in P if "." not in n},
             "pk": "n/a" if pk is None else ("unset" if not pkv else kw_code(pkv.get("env"), pkv.get("defaults"))),
             "sap": "n/a" if sap is None else sapname,
             "dk": "n/a" if dk is None else ("unset" if not dkv else ",".join(f"{k}={dkv[k]}" for k in sorted(dkv))),
@@ -562,9 +691,17 @@ def run_history(task: dict) -> dict:
             reused = run_call(c, P[c["p"]], d)
             post = observe(P, d, init)
             if probe:
+                # the probe must leave no residue: context variables are isolated by copy_context(); the class-level dict of the help
+                # actions (process-wide, written by a help request for a callable type) is put back to what the reused call left
+                hcls = getattr(__import__("jsonargparse._actions", fromlist=["_ActionHelpClassPath"]), "_ActionHelpClassPath", None)
+                shared = getattr(hcls, "sub_add_kwargs", None)
+                snap = {k: (set(v) if isinstance(v, set) else v) for k, v in shared.items()} if isinstance(shared, dict) else None
                 fresh = contextvars.copy_context().run(lambda: run_call(c, build(c["p"], d)[c["p"]], d))
+                if snap is not None and shared != snap:
+                    shared.clear()
+                    shared.update(snap)
                 post2 = observe(P, d, init)
-                clean = {k: post2[k] for k in ("pending", "pk", "sap", "dk", "managed")} == {k: post[k] for k in ("pending", "pk", "sap", "dk", "managed")}
+                clean = {k: post2[k] for k in ("hskip", "pending", "pk", "sap", "dk", "managed")} == {k: post[k] for k in ("hskip", "pending", "pk", "sap", "dk", "managed")}
             else:  # a positioning step of a tour: its transition is probed elsewhere
                 fresh, clean = None, True
             steps.append({"reused": reused, "fresh": fresh, "post": post, "probe_clean": clean})
@@ -697,7 +834,8 @@ def make_tours(states: dict, init_key: str, op_ids: list, maxlen: int):
 def AB(m: str, p: str, **kw) -> dict:
     """an abstract call (the record of Context.tla) with the defaults of MC_Context's O()."""
     ab = {"id": "", "m": m, "p": p, "kw": DEF_KW if m == "parse_args" else "-", "items": [], "sub": "none", "sitems": [], "pre": "ok", "sel": "none",
-          "dumpf": "none", "late": "ok", "ser": m == "dump", "dkv": "skip_none=True,skip_validation=False", "spec": "none", "file": "-"}
+          "dumpf": "none", "late": "ok", "ser": m == "dump", "dkv": "skip_none=True,skip_validation=False", "spec": "none", "file": "-",
+          "hscope": "shared", "hset": "-", "hkey": "any"}
     ab.update(kw)
     return ab
 
@@ -722,12 +860,29 @@ def scenarios(ops: dict) -> list:
         if o["m"] != "environment" and o.get("_ref", "return") != "return":
             other = "B" if o["p"] == "A" else "A"
             out.append([dict(o)] + probes_for(o["p"]) + [AB("parse_args", other, items=["ok"])])
-    for p in ROOTS:  # (4) the dataclass-typed argument: every way of setting it, then a call that sets ONE field (or none)
-        one, many = ("dc1", "dcn") if p == "A" else ("dg1", "dgn")
+    for p, one, many in (("A", "dc1", "dcn"), ("B", "dg1", "dgn"), ("B", "dc1", "dcn")):  # (4) the dataclass-typed argument (function parameter, plain
+        # argument, class parameter): every way of setting it, then a call that sets ONE field (or none)
         setters = ([AB("parse_args", p, items=[k]) for k in (one, many, "dcd", "cfgdc")]
                    + [AB(m, p, spec=sp) for m in ("parse_object", "parse_string", "parse_env") for sp in ("dc1", "dcn")])
         for o1 in setters:
             out.append([o1, AB("parse_args", p, items=[one]), AB("parse_string", p, spec="dc1"), AB("parse_args", p), AB("get_defaults", p)])
+    # (5) a help request for a typed argument whose type is a callable that returns class instances, then a value of that type through
+    #     every entry point (argv with class_path / init_args / nested keys, --print_config after it, parse_object, parse_string,
+    #     parse_env, dump, instantiate_classes), the class help of a CLASS-typed argument on both parsers (HelpSkipResidue), the
+    #     help request again, and the defaults - every step probed against a fresh parser here and in a pristine process
+    for key in sorted(HELPS["B"]):
+        if HELPS["B"][key][2] == "-":
+            continue
+        hs, hv = HELPS["B"][key][1:]
+        h = AB("parse_args", "B", items=["clshelp"], hscope=hs, hset=hv, hkey=key)
+        mk = key + ":maker"
+        out.append([dict(h), AB("parse_args", "B", items=["cbv"], hkey=mk), AB("parse_args", "B", items=["cbv", "pc"], hkey=mk), AB("parse_object", "B", spec="cb", hkey=mk),
+                    AB("dump", "B", spec="cb", hkey=mk), AB("instantiate_classes", "B", spec="cb", ser=False, hkey=mk), AB("parse_string", "B", spec="cb", hkey=mk)])
+        out.append([h, AB("parse_args", "B", items=["cbv"], hkey=key), AB("parse_args", "B", items=["cbv", "pc"], hkey=key),
+                    AB("parse_object", "B", spec="cb", hkey=key), AB("dump", "B", spec="cb"), AB("instantiate_classes", "B", spec="cb", ser=False),
+                    AB("parse_args", "B", items=["clshelp"], hkey="cls"), AB("parse_args", "A", items=["clshelp"], hkey="cls"), dict(h),
+                    AB("parse_string", "B", spec="cb", hkey=key), AB("parse_env", "B", spec="cb", hkey=key), AB("get_defaults", "B"), AB("format_help", "B"),
+                    AB("parse_args", "B", items=["cbv"])])
     for p in ROOTS:  # (3) the completion script is printed, then everything is asked again (recorded ShtabResidue)
         if not any(o["p"] == p and "shtab" in o["items"] for o in ops.values()):
             out.append([AB("parse_args", p, items=["shtab"])] + probes_for(p) + [AB("format_help", p), AB("parse_args", "B" if p == "A" else "A", items=["ok"])])
@@ -753,13 +908,19 @@ def random_abstract(rnd, maxitems=4) -> dict:
     m = rnd.choices(["parse_args", "parse_object", "parse_string", "parse_path", "parse_env", "get_defaults", "dump", "validate", "instantiate_classes",
                      "environment", "format_help"], [44, 8, 10, 6, 5, 7, 8, 4, 5, 8, 3])[0]
     ab = {"id": "", "m": m, "p": p, "kw": "-", "items": [], "sub": "none", "sitems": [], "pre": "ok", "sel": "none", "dumpf": "none",
-          "late": "ok", "ser": False, "dkv": "skip_none=True,skip_validation=False", "spec": "none", "file": "-"}
+          "late": "ok", "ser": False, "dkv": "skip_none=True,skip_validation=False", "spec": "none", "file": "-",
+          "hscope": "shared", "hset": "-", "hkey": "any"}
     if m == "environment":
         ab["file"] = rnd.choice(["v1", "v1", "v2", "absent"])
     elif m == "parse_args":
         kinds = (["ok", "ok", "ok", "sel", "sel", "bad", "unk", "pc", "pc", "pcflag", "help", "help", "cfg", "cfgbad", "cfgbad"]
-                 + (["dc1", "dc1", "dcn"] if p == "A" else ["dg1", "dg1", "dgn"]) + ["dcd", "cfgdc"] + (["clshelp", "ncls"] if p == "A" else []) + (["shtab"] if rnd.random() < 0.12 else []))
+                 + (["dc1", "dc1", "dcn"] if p == "A" else ["dg1", "dg1", "dgn", "dc1", "dcn"]) + ["dcd", "cfgdc"] + (["clshelp", "ncls"] if p == "A" else []) + (["shtab"] if rnd.random() < 0.12 else []))
+        if p == "B":
+            kinds += ["cbv", "cbv", "cbv", "clshelp", "clshelp"]
         ab["items"] = [rnd.choice(kinds) for _ in range(rnd.randint(0, maxitems))]
+        if "clshelp" in ab["items"]:  # which typed argument the help request is for decides the dict and what is written to it
+            ab["hkey"] = rnd.choice(sorted(HELPS[p]))
+            ab["hscope"], ab["hset"] = HELPS[p][ab["hkey"]][1:]
         if "clshelp" in ab["items"]:  # whatever follows --cls.help is handed to a throw-away help parser: keep it last
             ab["items"] = ab["items"][: ab["items"].index("clshelp") + 1]
         elif p == "A" and rnd.random() < 0.45:
@@ -783,7 +944,9 @@ def random_abstract(rnd, maxitems=4) -> dict:
             ab["late"] = "fail"
     elif m in ("parse_object", "parse_string", "parse_path", "parse_env"):
         r = rnd.random()
-        if m != "parse_path" and rnd.random() < 0.25:  # fields of the dataclass-typed argument
+        if p == "B" and rnd.random() < 0.4:  # a value of a callable type that returns class instances
+            ab["spec"] = "cb"
+        elif m != "parse_path" and rnd.random() < 0.25:  # fields of the dataclass-typed argument
             ab["spec"] = rnd.choice(["dc1", "dcn"])
         elif m in ("parse_string", "parse_path") and rnd.random() < 0.45:  # a class spec for `cls`, full or without class_path
             ab["spec"] = rnd.choice(["full", "short"])
@@ -804,6 +967,8 @@ def random_abstract(rnd, maxitems=4) -> dict:
     elif m in ("validate", "instantiate_classes"):
         if rnd.random() < 0.3:
             ab["pre"] = "fail"
+    if p == "B" and m in ("dump", "instantiate_classes") and ab["pre"] == "ok" and rnd.random() < 0.6:
+        ab["spec"] = "cb"
     return ab
 
 
@@ -825,13 +990,17 @@ def main(argv):
     # ---- MC: design level
     cfgname = f"MC_Context_{tier}"
     mc = tlc.run("MC_Context", cfgname, workers=workers, heap=heap, timeout=1500)
-    rep.add_tlc(cfgname, mc)
-    if mc.errors or mc.rc != 0:
-        if mc.violated:
-            rep.violation("model:" + ",".join(mc.violated), f"TLC: invariant {mc.violated} violated in MC_Context (the Alg layer breaks the property outside the recorded deviation)",
-                          {"tlc_errors": mc.errors, "counterexample": mc.cex[:6000]})
-        else:
-            machinery_failure(PID, "TLC failed on MC_Context:\n" + mc.stdout[-3000:])
+    # the second bounded instance: the HELP universe (help requests for callable-typed arguments, values of those types through every
+    # entry point, the class help that reads what they left) - same module, same invariants, its own transition system
+    mch = tlc.run("MC_Context", f"MC_Context_help_{tier}", workers=workers, heap=heap, timeout=1500)
+    for name, r in ((cfgname, mc), (f"MC_Context_help_{tier}", mch)):
+        rep.add_tlc(name, r)
+        if r.errors or r.rc != 0:
+            if r.violated:
+                rep.violation("model:" + ",".join(r.violated), f"TLC: invariant {r.violated} violated in {name} (the Alg layer breaks the property outside the recorded deviations)",
+                              {"tlc_errors": r.errors, "counterexample": r.cex[:6000]})
+            else:
+                machinery_failure(PID, f"TLC failed on {name}:\n" + r.stdout[-3000:])
     # documentation only: the design BEFORE fix 9a553c5 (ClearOnError = FALSE) violates the unguarded property; whatever
     # this run does, it cannot fail the check
     try:
@@ -841,48 +1010,58 @@ def main(argv):
     except Exception as ex:  # noqa: BLE001
         rep.extra["prefix_design_counterexample"] = f"run failed: {type(ex).__name__}"
 
-    emitted = [p for p in mc.printed if isinstance(p, dict) and "key" in p]
-    opsl = [p for p in mc.printed if isinstance(p, dict) and "ops" in p]
-    if not opsl or not emitted:
-        machinery_failure(PID, f"MC_Context emitted {len(emitted)} states, {len(opsl)} op tables")
-    ops = {o["id"]: o for o in opsl[0]["ops"]}
-    op_ids = sorted(ops)
-    states = {}
-    for s in emitted:
-        states[s["key"]] = {t[0]: (t[1], t[2], t[3]) for t in s["t"]}
-    if any(set(v) != set(op_ids) for v in states.values()) or any(t[0] not in states for v in states.values() for t in v.values()):
-        machinery_failure(PID, "emitted transition system is not closed / incomplete")
-    init_key = next(s["key"] for s in emitted if all(v == "none" for v in s["res"]["pending"].values()) and s["res"]["pk"] == "unset" and s["res"]["dk"] == "unset" and s["res"]["sap"] == "unset")
-    n_trans = len(states) * len(op_ids)
-    rep.extra["model_quiescent_states"] = len(states)
-    rep.extra["model_transitions"] = n_trans
-    rep.extra["model_deviating_transitions"] = sum(1 for v in states.values() for t in v.values() if t[1] != t[2])
-
-    # ---- REPLAY plan: tours covering every transition; TRACE plan: random histories
+    # ---- REPLAY plan: tours covering every transition of both instances; TRACE plan: random histories
     maxlen = 12 if tier == "quick" else 40
-    tours = make_tours(states, init_key, op_ids, 30 if tier == "quick" else 60)
     covered = set()
     tasks, meta = [], []
-    for w in tours:
-        cur, calls, abss, probe = init_key, [], [], []
-        for oid, cov in w:
-            if cov:
-                covered.add((cur, oid))
-            ab = {k: v for k, v in ops[oid].items() if not k.startswith("_")}
-            c = concretize(ab, rnd)
-            calls.append(c)
-            abss.append(abstract_record(ab, c))
-            probe.append(bool(cov))
-            cur = states[cur][oid][0]
-        tasks.append({"tid": len(tasks) + 1, "calls": calls, "probe": probe})
-        meta.append({"kind": "tour", "abs": abss})
-    if len(covered) != n_trans:
-        machinery_failure(PID, f"tours cover {len(covered)} of {n_trans} transitions")
+    ops, n_trans, n_states = {}, 0, 0
+    rep.extra["model_deviating_transitions"] = 0
+    for inst, r in (("main", mc), ("help", mch)):
+        emitted = [p for p in r.printed if isinstance(p, dict) and "key" in p]
+        opsl = [p for p in r.printed if isinstance(p, dict) and "ops" in p]
+        if not opsl or not emitted:
+            machinery_failure(PID, f"MC_Context ({inst}) emitted {len(emitted)} states, {len(opsl)} op tables")
+        iops = {o["id"]: o for o in opsl[0]["ops"]}
+        op_ids = sorted(iops)
+        states = {}
+        for s in emitted:
+            states[s["key"]] = {t[0]: (t[1], t[2], t[3]) for t in s["t"]}
+        if any(set(v) != set(op_ids) for v in states.values()) or any(t[0] not in states for v in states.values() for t in v.values()):
+            machinery_failure(PID, f"emitted transition system ({inst}) is not closed / incomplete")
+        init_key = next(s["key"] for s in emitted if all(v == "none" for v in s["res"]["pending"].values()) and s["res"]["pk"] == "unset" and s["res"]["dk"] == "unset"
+                        and s["res"]["sap"] == "unset" and all(v == "unset" for v in s["res"]["hskip"].values()))
+        n_inst = len(states) * len(op_ids)
+        rep.extra[f"model_quiescent_states_{inst}"] = len(states)
+        rep.extra[f"model_transitions_{inst}"] = n_inst
+        rep.extra["model_deviating_transitions"] += sum(1 for s in emitted for t in s["t"] if t[2] != t[3] or (len(t) > 4 and t[4] == "dev"))
+        tours = make_tours(states, init_key, op_ids, 30 if tier == "quick" else 60)
+        cov_inst = set()
+        for w in tours:
+            cur, calls, abss, probe = init_key, [], [], []
+            for oid, cov in w:
+                if cov:
+                    cov_inst.add((inst, cur, oid))
+                ab = {k: v for k, v in iops[oid].items() if not k.startswith("_")}
+                c = concretize(ab, rnd)
+                calls.append(c)
+                abss.append(abstract_record(ab, c))
+                probe.append(bool(cov))
+                cur = states[cur][oid][0]
+            tasks.append({"tid": len(tasks) + 1, "calls": calls, "probe": probe})
+            meta.append({"kind": "tour", "abs": abss})
+        if len(cov_inst) != n_inst:
+            machinery_failure(PID, f"tours cover {len(cov_inst)} of {n_inst} transitions ({inst})")
+        covered |= cov_inst
+        n_trans += n_inst
+        n_states += len(states)
+        ref_of = {oid: t[2] for oid, t in states[init_key].items()}
+        for oid, o in iops.items():
+            o["_ref"] = ref_of[oid]
+            ops.setdefault(oid, o)
+    rep.extra["model_quiescent_states"] = n_states
+    rep.extra["model_transitions"] = n_trans
     n_tour = len(tasks)
     # targeted scenarios (all steps probed)
-    ref_of = {oid: t[2] for oid, t in states[init_key].items()}
-    for oid, o in ops.items():
-        o["_ref"] = ref_of[oid]
     for seq in scenarios(ops):
         calls, abss = [], []
         for ab in seq:
@@ -930,11 +1109,12 @@ def main(argv):
     res0 = {"pending": {r: "none" for r in ROOTS}, "args": {n: "unset" for n in NAMES}, "shtab": {r: "no" for r in ROOTS},
             "dcf": {r: "absent" for r in ROOTS}}
     traces_all = []
+    hs0 = ("unset", "n/a")
     shorts = {}
     n_steps = 0
     for t, r, m in zip(tasks, results, meta):
         ini = r["init"]
-        if {k: ini[k] for k in res0} != res0 or ini["pk"] not in ("unset", "n/a") or ini["dk"] not in ("unset", "n/a") or not ini["managed"]:
+        if any(v not in hs0 for v in ini["hskip"].values()) or {k: ini[k] for k in res0} != res0 or ini["pk"] not in ("unset", "n/a") or ini["dk"] not in ("unset", "n/a") or not ini["managed"]:
             machinery_failure(PID, f"a forked child did not start from the initial residual state: {ini}")
         steps = []
         for c, ab, st in zip(t["calls"], m["abs"], r["steps"]):
@@ -945,7 +1125,7 @@ def main(argv):
             for o in (st["reused"], st["fresh"], pr):
                 if o is not None:
                     shorts[o["d"]] = o["short"]
-            steps.append({"op": ab, "post": {k: st["post"][k] for k in ("pending", "args", "shtab", "dcf", "pk", "sap", "dk", "managed")},
+            steps.append({"op": ab, "post": {k: st["post"][k] for k in ("hskip", "pending", "args", "shtab", "dcf", "pk", "sap", "dk", "managed")},
                           "leaked": st["post"]["leaked"],
                           "r": {"c": st["reused"]["c"], "d": st["reused"]["d"]}, "f": {"c": st["fresh"]["c"], "d": st["fresh"]["d"]} if st["fresh"] else None,
                           "p": {"c": pr["c"], "d": pr["d"]}})
@@ -1010,7 +1190,7 @@ def main(argv):
     rep.rule = ("cases = executed steps (call on a reused parser after a history, compared with a fresh parser in the same process and in a pristine process); "
                 "non-trivial & distinct = distinct (observed residual state before the call, abstract call) pairs whose residual state is not the initial one")
     rep.exhaustive = False
-    rep.explanation = (f"MC_Context explored the complete (finite) residual state space for its call universe: {len(states)} quiescent states, {n_trans} quiescent transitions, "
+    rep.explanation = (f"MC_Context explored the complete (finite) residual state space for its two call universes (main and help): {n_states} quiescent states, {n_trans} quiescent transitions, "
                        f"histories of any length; every one of these transitions was executed on real reused parsers by {n_tour} tours; {n_random} further random histories "
                        f"(<= {maxlen} calls) used a richer call grammar; TLC validated all {n_steps} steps against Trace_Context")
     for i in (0, n_tour // 2, n_tour, len(tasks) - 1):
@@ -1039,6 +1219,9 @@ def main(argv):
             pend = pend if pend in ("full", "popped") else "sub"
             rep.violation(f"print-config-residue/as-alg:{pend}:{meth}",
                           f"{meth} after a --print_config request that survived an earlier failed/aborted parse_args (pending={detail['ref-pending-as-alg']})", case)
+        elif "ref-helpskip-as-alg" in names:
+            rep.violation(f"help-skip-residue/as-alg:{detail['ref-helpskip-as-alg']}:{s['op']['p']}",
+                          "the class help of a class-typed argument omits the first parameter(s) after a help request for a callable-typed argument anywhere in the process", case)
         elif "ref-shtab-as-alg" in names:
             rep.violation(f"shtab-residue/as-alg:{meth}", f"{meth} fails after --print_shtab=<shell> was run on the same root parser", case)
         elif "ref-process" in names:
